@@ -142,6 +142,30 @@ static int cmd_exec(const std::map<std::string, std::string> &a) {
     if (!trace) quiet_stdio();
     else { int fd = open("/dev/null", O_WRONLY); dup2(fd, 1); close(fd); }
     static StatusPage page; g_status = &page;
+    // C12, multi-plan file: what the last plan's sessions observe must not depend on the plans executed before it in the
+    // same process. Reference = the last plan executed alone in a child forked before anything else ran.
+    uint64_t alone_hash = 0; bool have_alone = false;
+    std::string prof0 = a.count("profile") ? a.at("profile") : plans.back().profile;
+    if (plans.size() > 1 && prof0 == "C12") {
+        int pfd[2];
+        if (pipe(pfd) == 0) {
+            pid_t pid = fork();
+            if (pid == 0) {
+                close(pfd[0]);
+                shim_warm_rs();
+                ExecOptions eo; eo.profile = prof0; eo.check_indep = false;
+                alarm(60);
+                RunResult rr = execute_plan(plans.back(), eo);
+                uint64_t h = rr.log_hash;
+                if (write(pfd[1], &h, sizeof h) != (ssize_t)sizeof h) _exit(1);
+                _exit(0);
+            }
+            close(pfd[1]);
+            int wst = 0; waitpid(pid, &wst, 0);
+            if (read(pfd[0], &alone_hash, sizeof alone_hash) == (ssize_t)sizeof alone_hash) have_alone = true;
+            close(pfd[0]);
+        }
+    }
     if (!plans[0].cold || a.count("warm") || plans.size() > 1) shim_warm_rs();
     RunResult r; 
     Hash64 chain;
@@ -150,12 +174,18 @@ static int cmd_exec(const std::map<std::string, std::string> &a) {
         ExecOptions eo;
         eo.profile = a.count("profile") ? a.at("profile") : p.profile;
         eo.trace = trace && i + 1 == plans.size();
-        eo.check_indep = eo.profile == "C12" || a.count("indep");
+        eo.check_indep = (eo.profile == "C12" && plans.size() == 1) || a.count("indep");
         page.run = (int64_t)p.run;
         alarm(a.count("timeout") ? atoi(a.at("timeout").c_str()) : 60);
         r = execute_plan(p, eo);
         alarm(0);
         chain.u64(r.log_hash);
+    }
+    if (have_alone && r.log_hash != alone_hash) {
+        Violation v; v.prop = "C12"; v.cls = "indep"; v.key = "observation-depends-on-earlier-sessions-of-the-process";
+        v.detail = "the last plan of this file is observed differently when the plans before it ran in the same process";
+        v.op = -1; v.ses = -1;
+        r.viol.push_back(v);
     }
     if (plans.size() > 1) r.log_hash = chain.h;
     std::string js = result_json(plans.back(), r, true);
